@@ -187,6 +187,39 @@ def judge_report(case) -> Verdict:
             if A.ambiguous(bot, top):
                 v.exclude("port-universe-sliver")
                 return v
+    edit = case.get("element_edit")
+    if edit:
+        # the text of the ACL was read; then ONE element of one entry is re-written through that element's own setter
+        # (source address or destination port); the next report is about the entries as they are now
+        _ = acl.line
+        aces_now = [o for o in A.flat_items(acl.items) if isinstance(o, Ace)]
+        if len(aces_now) != len(recs):
+            raise Invalid()
+        i = edit[0] % len(recs)
+        new = dict(recs[i])
+        if edit[1] == "src":
+            G.validate_addr(edit[2])
+            if edit[2]["k"] == "group" or not G.addr_is_native(edit[2], platform):
+                raise Invalid()
+            new["src"] = edit[2]
+            aces_now[i].srcaddr.line = G.render_addr(edit[2], platform)
+        elif edit[1] == "dp" and new["proto"] in (6, 17) and new.get("dp"):
+            G.validate_port(edit[2], platform)
+            if edit[2] is None or not R.port_set(edit[2]["op"], edit[2]["v"]):
+                raise Invalid()
+            new["dp"] = dict(edit[2], nm=[-1] * len(edit[2]["v"]))
+            aces_now[i].dstport.line = G.render_port(new["dp"], {})
+        else:
+            edit = None
+        if edit:
+            recs = list(recs)
+            recs[i] = new
+            v.label("element-edited-after-the-text-was-read")
+            for a_i, top in enumerate(recs):
+                for bot in recs[a_i + 1:]:
+                    if A.ambiguous(bot, top):
+                        v.exclude("port-universe-sliver")
+                        return v
     lines = [o.line for o in A.flat_items(acl.items) if isinstance(o, Ace)]
     if len(lines) != len(recs):
         raise Invalid()
@@ -250,6 +283,13 @@ def report_st(draw, tier):
             "warmup": draw(st.lists(st.integers(0, 4), max_size=3))}
     if draw(st.sampled_from(range(4))) == 2:
         case["headings"] = draw(st.lists(st.integers(0, 10), min_size=1, max_size=3))
+    if draw(st.sampled_from(range(4))) == 3:
+        which = draw(st.sampled_from(["src", "src", "dp"]))
+        if which == "src":
+            val = G.native_addr(G.addr_pair(draw(G.addr_st(kmax=2, groups=False))), platform)
+        else:
+            val = draw(G.port_st(platform, None, False, False, False))
+        case["element_edit"] = [draw(st.integers(0, 9)), which, val]
     if draw(st.sampled_from(range(4))) == 1:
         # appended afterwards: a copy or a narrowed copy of an entry that is already there (so something covers it)
         base = draw(st.sampled_from(recs))
